@@ -47,7 +47,8 @@ for _n in ICTX:
     CTX_TEXT[_n] = f'fp.{_n}'
 CTX_TEXT['REAL'] = 'fp.REAL'
 
-MODULE_PRELUDE = ''.join(f'{n} = {t}\n' for n, t in CTX_TEXT.items()) + '\n'
+MODULE_PRELUDE = ('from fpy2.libraries import matrix as mx, vector as vx\n'
+                  + ''.join(f'{n} = {t}\n' for n, t in CTX_TEXT.items()) + '\n')
 
 
 def width(c: str) -> int:
@@ -719,6 +720,72 @@ def _e1():
     return gen, build
 
 
+# ---- E2: list constructors beyond literals, then per-row writes and reads of a DIFFERENT row ------
+
+E2_SHAPES = {
+    # name: (first arg base kind, body); {U} {V} operands, {Euv} = u op v, {X00} = xss[0][0] op v, {X0} = xs[0] op v
+    'empty1': ('s', ['xs = empty(3)', 'xs[0] = {U}', 'xs[1] = {V}', 'xs[2] = {Euv}', 'xs[1] = {X0}',
+                     'return xs[0], xs[2], xs']),
+    'empty2': ('s', ['xss = empty(2, 2)', 'xss[0][0] = {U}', 'xss[0][1] = {V}', 'xss[1][0] = {Euv}',
+                     'xss[1][1] = {U}', 'xss[1][0] = {X00}', 'return xss[0][0], xss[0][1], xss']),
+    'empty2-rows-loop': ('s', ['xss = empty(3, 2)', 'for i in range(3):', '    xss[i][0] = {U}', '    xss[i][1] = {V}',
+                               'xss[2][1] = {X00}', 'xss[1][0] = {Euv}', 'return xss[0][1], xss[0][0], xss']),
+    'empty2-len': ('l', ['xss = empty(len(us), 2)', 'for i in range(len(us)):', '    xss[i][0] = {US}',
+                         '    xss[i][1] = {V}', 'for i in range(len(us)):', '    xss[i][1] = {XI0}',
+                         'return xss']),
+    'empty3': ('s', ['xsss = empty(2, 2, 2)', 'xsss[0][0][0] = {U}', 'xsss[0][1][0] = {V}', 'xsss[1][0][0] = {Euv}',
+                     'xsss[1][1][0] = {U}', 'xsss[1][0][0] = {X000}',
+                     'return xsss[0][0][0], xsss[0][1][0], xsss[1][0][0], xsss[1][1][0]']),
+    'comp2': ('s', ['xss = [[{V} for _ in range(2)] for _ in range(2)]', 'xss[1][0] = {Euv}', 'xss[0][1] = {X00}',
+                    'return xss[0][0], xss[1][1], xss']),
+    'comp2-len': ('l', ['xss = [[x, {V}] for x in us]', 'for i in range(len(us)):', '    xss[i][1] = {XI0}',
+                        'return xss, us']),
+    'comp-shared-row': ('s', ['row = [{U}, {V}]', 'xss = [row for _ in range(2)]', 'xss[1][0] = {Euv}',
+                              'return xss[0][0], row[0], xss[1][1]']),
+    'lit-shared-row': ('s', ['row = [{U}, {V}]', 'xss = [row, row]', 'xss[1][0] = {Euv}',
+                             'return xss[0][0], row[0], xss']),
+    'lib-zeros2': ('s', ['xss = mx.zeros(2, 2)', 'xss[1][0] = {Euv}', 'xss[0][1] = {X00}',
+                         'return xss[0][0], xss[1][1], xss']),
+    'lib-zeros1': ('s', ['xs = vx.zeros(3)', 'xs[1] = {Euv}', 'xs[2] = {X0}', 'return xs[0], xs']),
+    'empty1-alias': ('s', ['xs = empty(2)', 'ys = xs', 'ys[0] = {U}', 'xs[1] = {V}', 'ys[1] = {X0}', 'return xs, ys[0]']),
+}
+
+
+@family('E2')
+def _e2():
+    def gen(full):
+        for sh, (base, _b) in E2_SHAPES.items():
+            if full:
+                for c, op in itertools.product(['F64E', 'F32Z', 'F64P', 'F32N'], ['mul', 'add']):
+                    yield ('E2', sh, c, op)
+            else:
+                yield ('E2', sh, 'F64E', 'add')
+        if not full:
+            for sh in ('empty2', 'comp2', 'empty3'):
+                yield ('E2', sh, 'F32Z', 'mul')
+
+    def build(sh, c, op):
+        base, tmpl = E2_SHAPES[sh]
+        W = width(c)
+        k0 = 's64' if base == 's' else 'l64'
+        env = Env(u=64, v=64)
+        for nm in ('xs[0]', 'xss[0][0]', 'xss[i][0]', 'xsss[0][0][0]'):
+            env.w[nm] = W
+        env.w['us[i]'] = 64
+        subst = {'U': env.o('u', W) if base == 's' else '', 'V': env.o('v', W),
+                 'Euv': ex(op, env, W, 'u', 'v') if base == 's' else '',
+                 'X0': ex(op, env, W, 'xs[0]', 'v'), 'X00': ex(op, env, W, 'xss[0][0]', 'v'),
+                 'X000': ex(op, env, W, 'xsss[0][0][0]', 'v'), 'XI0': ex(op, env, W, 'xss[i][0]', 'v'),
+                 'US': env.o('us[i]', W)}
+        body = [f'with {c}:'] + ind([ln.format(**subst) for ln in tmpl])
+        if sh == 'comp2-len' and W == 32:
+            body[1] = '    xss = [[round(x), round(v)] for x in us]'
+        p0 = 'u' if base == 's' else 'us'
+        return Program(('E2', sh, c, op), 'E', f'E2:{sh}:{op}:w{W}', fn('f', [(p0, k0), ('v', 's64')], body),
+                       [k0, 's64'], 'F64E')
+    return gen, build
+
+
 # ---- F: two-function modules -------------------------------------------------
 
 CALLEES = {
@@ -750,6 +817,12 @@ CALLERS = {
     'nested-direct': ('ll', 'll', ['a = g(uss, v)', 'return {A} + {UU}, uss']),
     'nested-local': ('l', 'll', ['xss = [us, [{Vl}, {Vl}]]', 'a = g(xss, v)', 'return {U0} + {A}']),
     'tail-mode': ('l', 'l', ['a = g(us, v)', 'return {A} * {V} + {U0} / {V}']),
+    # the callee writes a row (or element) of a list built by a constructor; the caller reads ANOTHER row
+    'ctor-row': ('s', 'l', ['xss = empty(2, 2)', 'xss[0][0] = {U}', 'xss[0][1] = {V}', 'xss[1][0] = {V}',
+                            'xss[1][1] = {U}', 'a = g(xss[1], v)', 'return xss[0][0], xss[1][0], a']),
+    'ctor-nested': ('s', 'll', ['xss = empty(2, 2)', 'xss[0][0] = {U}', 'xss[0][1] = {V}', 'xss[1][0] = {V}',
+                                'xss[1][1] = {U}', 'a = g(xss, v)', 'return xss[1][0], xss[0][0], a']),
+    'comp-row': ('s', 'l', ['xss = [[{U}, {V}] for _ in range(2)]', 'a = g(xss[0], v)', 'return xss[1][0], xss[0][0], a']),
 }
 
 
@@ -770,7 +843,7 @@ def _f1():
         ew = int(lk.split('#')[0])
         if CALLERS.get(cn, ('l',))[0] != 'l' and lk != '64':
             return False
-        if gn == 'noctx' and cn != 'local' and width(c1) > ew:
+        if gn == 'noctx' and CALLERS.get(cn, ('l',))[0] != 's' and width(c1) > ew:
             return False            # the callee would store a binary64 result into a binary32 list
         return True
 
@@ -789,12 +862,15 @@ def _f1():
             yield ('F1', 'direct', 'write', 'F64E', 'F64E', '64#3')
             yield ('F1', 'direct', 'write', 'F64P', 'F32N', '32')
             yield ('F1', 'alias', 'noctx', 'F32Z', 'F64E', '32')
+            for cn, gn in (('ctor-row', 'write'), ('ctor-row', 'alias-write'), ('ctor-nested', 'nested'),
+                           ('comp-row', 'write'), ('comp-row', 'loop')):
+                yield ('F1', cn, gn, 'F64E', 'F64E', '64')
 
     def build(cn, gn, c1, c2, lk):
         W1 = width(c1)
         fb = 'l' if cn == 'ret-alias' else CALLERS[cn][0]
         # element width of the list the callee receives
-        ew = W1 if cn == 'local' else int(lk.split('#')[0])
+        ew = W1 if CALLERS.get(cn, ('l',))[0] == 's' else int(lk.split('#')[0])
         W2 = min(width(c2), ew)
         cc2 = c2 if width(c2) <= ew else 'F32' + c2[3]
         gb, gtmpl = CALLEES[gn]
@@ -939,8 +1015,8 @@ def enumerate_space(tier: str, seed: int) -> list[tuple]:
     for d in core:                      # the core is, by construction, part of the full product
         assert d in full_set, d
     if tier == 'thorough':
-        return full
-    out = list(core)
+        return list(dict.fromkeys(full))
+    out = list(dict.fromkeys(core))
     seen = set(core)
     r = seed % QUICK_SLICE
     for i, d in enumerate(full):
